@@ -5,10 +5,11 @@ REGISTRY: dict = {}
 
 
 class LoopSpec:
-    def __init__(self, head, inv, decreases=None, modifies_extra=()):
+    def __init__(self, head, inv, decreases=None, stack="balanced"):
         self.head = head  # fingerprint: ast.unparse of the loop header (For: 'for x in expr', While: 'while cond', effectful comprehension: the comprehension text)
         self.inv = inv  # function(s, j, pre) -> list of formulas ; j is None for while loops
         self.decreases = decreases
+        self.stack = stack  # 'balanced' | 'grows' (body only pushes; nothing below is popped later)
 
 
 class Contract:
@@ -27,7 +28,7 @@ class Contract:
     """
 
     def __init__(self, qual, params, returns=None, requires=None, ensures=None, raises=None, loops=None,
-                 modifies=(), trusted=False, properties=(), note="", decreases=None, locals=None, defaults=None):
+                 modifies=(), trusted=False, properties=(), note="", decreases=None, locals=None, defaults=None, hints=None):
         self.qual = qual
         self.params = params
         self.returns = returns
@@ -42,6 +43,9 @@ class Contract:
         self.decreases = decreases
         self.locals = locals or {}
         self.defaults = defaults or {}
+        # hints: VALID axiom instances (only list extensionality, ListTheory.ext_facts) added as
+        # hypotheses of the post obligations; they are listed in the evidence
+        self.hints = hints
         REGISTRY[qual] = self
 
 
